@@ -890,6 +890,23 @@ func (e *Env) call(x *ECall) Val {
 	case "sent":
 		v := arg(0)
 		return Val{T: sx("select", g.heap(e.st, "ChanN", "(Array Int Int)"), v.T), S: "Int"}
+	case "as":
+		// as(x, "*pkg.T"): view an untyped reference (e.g. a value read back from a
+		// channel ghost) at a Go pointer type
+		v := arg(0)
+		tn := x.Args[1].(*EStr).V
+		t := g.P.typeByName(tn)
+		if t == nil {
+			e.fail("unknown type %s", tn)
+		}
+		return Val{T: v.T, S: g.sortOf(t), G: t}
+	case "closed":
+		v := arg(0)
+		return Val{T: sx("select", g.heap(e.st, "Closed", "(Array Int Bool)"), v.T), S: "Bool"}
+	case "recvd":
+		// recvd(ch): number of values received so far from channel ch
+		v := arg(0)
+		return Val{T: sx("select", g.heap(e.st, "ChanR", "(Array Int Int)"), v.T), S: "Int"}
 	case "sentv":
 		v, k := arg(0), arg(1)
 		return Val{T: sx("select", sx("select", g.heap(e.st, "ChanV", "(Array Int (Array Int Int))"), v.T), k.T), S: "Int"}
